@@ -1,12 +1,154 @@
 /-
-Driver operations for the Peers model (line protocol). Core Lean only.
-`handle st words` returns `none` when the first word is not one of this module's operations.
+Driver operations for the peer-management models (C18). Core Lean only.
+
+  peer new <banTicks>                          -> ok            (limits = regenerated server constants)
+  peer add <in|out|pers> <host> <group> <id> <vk:0|1>
+                                               -> admitted|rejected:<reason> n=<Count()> ip=<connectionCount[host]> grp=<outboundGroups[group]>
+  peer addbad                                  -> rejected:badaddr|rejected:shutdown n=<Count()>
+  peer done <in|out|pers> <host> <group> <id> <vk>
+                                               -> done n=… ip=… grp=…
+  peer ban <host>                              -> banned
+  peer clock <ticks>                           -> clock
+  peer shutdown                                -> shutdown
+  peer dump <hosts> <groups>                   -> in=[id:host:group,…] out=[…] pers=[…] cc=[h:n,…] og=[g:n,…] ban=[h:remaining,…]
+                                                  (ids ascending; counters/bans of hosts < hosts, groups < groups; zero entries omitted,
+                                                   an expired but not yet deleted ban entry prints remaining 0)
+
+  conn new <target> <banaddr:0|1>              -> <state line>   (target 0 = default)
+  conn ok <k> <addr> | conn fail <k> <addr> | conn addrfail <k>      (k-th request in flight, 0-based, oldest first)
+  conn disc <k> <retry:0|1>                    (k-th established connection, oldest first)
+  conn discold <k> <retry>                     (k-th connection closed so far, oldest first: its id again)
+  conn discid <id> <retry>                     (raw id)
+  conn cancel <k>                              (Disconnect of the id of the k-th request in flight)
+  conn dump
+     state line: conns=<n> live=<n> bans=<n> dials=<n> asks=<n> closed=<n> addrs=[…] banned=[…]
 -/
+import BHS.Model.Peers
+import BHS.Model.ConnMgr
+import BHS.Gen.PeerConsts
+
 namespace Driver.Ops.Peers
+open BHS BHS.Model
 
 structure S where
-  unit : Unit := ()
+  cfg : Peers.Cfg := { maxPeers := Gen.maxPeers, maxPerIP := Gen.maxPeersPerIP, banMs := Gen.banDurationDefaultMs }
+  st : Peers.State := {}
+  ccfg : ConnMgr.Cfg := { target := Gen.defaultTargetOutbound, banAddr := true, maxFailed := Gen.maxFailedAttempts }
+  cst : ConnMgr.St := {}
 
-def handle (_st : S) (_ws : List String) : Option (S × String) := none
+def kindOf : String → Option Peers.Kind
+  | "in" => some .inbound
+  | "out" => some .outbound
+  | "pers" => some .persistent
+  | _ => none
+
+def reason : Peers.AddResult → String
+  | .admitted => "admitted"
+  | .shutdown => "rejected:shutdown"
+  | .badaddr => "rejected:badaddr"
+  | .banned => "rejected:banned"
+  | .perHost => "rejected:perhost"
+  | .total => "rejected:total"
+
+def counters (s : Peers.State) (host group : Nat) : String :=
+  s!"n={Peers.count s} ip={s.conn host} grp={s.groups group}"
+
+def insertById (p : Peers.Peer) : List Peers.Peer → List Peers.Peer
+  | [] => [p]
+  | q :: l => if p.id ≤ q.id then p :: q :: l else q :: insertById p l
+
+def sortById (l : List Peers.Peer) : List Peers.Peer := l.foldl (fun acc p => insertById p acc) []
+
+def showPeers (l : List Peers.Peer) : String :=
+  "[" ++ ",".intercalate ((sortById l).map (fun p => s!"{p.id}:{p.host}:{p.group}")) ++ "]"
+
+def showInts (n : Nat) (f : Nat → Int) : String :=
+  "[" ++ ",".intercalate (((List.range n).filter (fun k => f k != 0)).map (fun k => s!"{k}:{f k}")) ++ "]"
+
+def showBans (n : Nat) (s : Peers.State) : String :=
+  "[" ++ ",".intercalate ((List.range n).filterMap (fun h =>
+    match s.banned h with
+    | some e => some s!"{h}:{e - s.now}"
+    | none => none)) ++ "]"
+
+def peerArgs (k h g i v : String) : Option Peers.Peer := do
+  let kind ← kindOf k
+  let host ← h.toNat?
+  let group ← g.toNat?
+  let id ← i.toNat?
+  let vk ← v.toNat?
+  pure { id := id, kind := kind, host := host, group := group, vk := vk != 0 }
+
+def showNats (l : List Nat) : String := "[" ++ ",".intercalate (l.map toString) ++ "]"
+
+def connLine (s : ConnMgr.St) : String :=
+  s!"conns={s.conns.length} live={s.live.length} bans={s.banned.length} dials={s.dials} asks={s.asks} closed={s.closed.length} addrs={showNats (s.conns.map (·.2))} banned={showNats s.banned}"
+
+def connStep (st : S) (e : Option ConnMgr.Event) : Option (S × String) :=
+  match e with
+  | some ev => let c := ConnMgr.step st.ccfg st.cst ev; some ({ st with cst := c }, connLine c)
+  | none => some (st, "bad-index")
+
+def handle (st : S) : List String → Option (S × String)
+  | ["peer", "new", b] => do
+    let ban ← b.toNat?
+    pure ({ st with cfg := { st.cfg with banMs := ban }, st := {} }, "ok")
+  | ["peer", "add", k, h, g, i, v] => do
+    let p ← peerArgs k h g i v
+    let r := Peers.addPeer st.cfg st.st p
+    pure ({ st with st := r.1 }, s!"{reason r.2} {counters r.1 p.host p.group}")
+  | ["peer", "addbad"] =>
+    let r := Peers.addBad st.st
+    some ({ st with st := r.1 }, s!"{reason r.2} n={Peers.count r.1}")
+  | ["peer", "done", k, h, g, i, v] => do
+    let p ← peerArgs k h g i v
+    let s' := Peers.donePeer st.st p
+    pure ({ st with st := s' }, s!"done {counters s' p.host p.group}")
+  | ["peer", "ban", h] => do
+    let host ← h.toNat?
+    pure ({ st with st := Peers.banHost st.cfg st.st host }, "banned")
+  | ["peer", "clock", d] => do
+    let dt ← d.toNat?
+    pure ({ st with st := (Peers.step st.cfg st.st (.clock dt)).1 }, "clock")
+  | ["peer", "shutdown"] => some ({ st with st := (Peers.step st.cfg st.st .shutdown).1 }, "shutdown")
+  | ["peer", "dump", hs, gs] => do
+    let nh ← hs.toNat?
+    let ng ← gs.toNat?
+    let s := st.st
+    pure (st, s!"in={showPeers s.inb} out={showPeers s.outb} pers={showPeers s.pers} cc={showInts nh s.conn} og={showInts ng s.groups} ban={showBans nh s}")
+  | ["conn", "new", t, b] => do
+    let target ← t.toNat?
+    let ban ← b.toNat?
+    let c : ConnMgr.Cfg := { target := ConnMgr.effTarget Gen.defaultTargetOutbound target, banAddr := ban != 0, maxFailed := Gen.maxFailedAttempts }
+    let s := ConnMgr.start c
+    pure ({ st with ccfg := c, cst := s }, connLine s)
+  | ["conn", "ok", k, a] => do
+    let k ← k.toNat?
+    let a ← a.toNat?
+    connStep st ((st.cst.live[k]?).map (fun id => .dialOk id a))
+  | ["conn", "fail", k, a] => do
+    let k ← k.toNat?
+    let a ← a.toNat?
+    connStep st ((st.cst.live[k]?).map (fun id => .dialFail id a))
+  | ["conn", "addrfail", k] => do
+    let k ← k.toNat?
+    connStep st ((st.cst.live[k]?).map (fun id => .addrFail id))
+  | ["conn", "disc", k, r] => do
+    let k ← k.toNat?
+    let r ← r.toNat?
+    connStep st ((st.cst.conns[k]?).map (fun c => .disc c.1 (r != 0)))
+  | ["conn", "discold", k, r] => do
+    let k ← k.toNat?
+    let r ← r.toNat?
+    connStep st ((st.cst.closed.reverse[k]?).map (fun id => .disc id (r != 0)))
+  | ["conn", "discid", i, r] => do
+    let i ← i.toNat?
+    let r ← r.toNat?
+    connStep st (some (.disc i (r != 0)))
+  | ["conn", "cancel", k] => do
+    let k ← k.toNat?
+    connStep st ((st.cst.live[k]?).map (fun id => .disc id true))
+  | ["conn", "dump"] => some (st, connLine st.cst)
+  | _ => none
 
 end Driver.Ops.Peers
